@@ -253,7 +253,7 @@ func (r *Run) Yield(point string) {
 // class is the oracle clause; sig a structural signature (defaults to class).
 func (r *Run) Violation(class, sig, format string, args ...interface{}) {
 	r.mu.Lock()
-	if r.viol == nil {
+	if r.viol == nil && !r.ended {
 		if sig == "" {
 			sig = class
 		}
